@@ -471,10 +471,13 @@ C19Event(o, k, b) ==
                 \A a \in AllIds(before) : \A c \in C : ValOfAlt(after, a, c) = ValOfAlt(before, a, c)
            (* new-criterion applier *)
            added == rep.applierResult.addedCriteria
+           (* what the report says about the added criterion is what the next stage received *)
+           newReportOK ==
+             Len(added) = 1 /\ AddedShapeOK(before, after, <<added[1].id>>) =>
+                \A a \in AllIds(after) : a \in DOMAIN added[1].alternativesValues /\ added[1].alternativesValues[a] = ValOfAlt(after, a, added[1].id)
            newOK ==
              /\ Len(added) = 1
              /\ AddedShapeOK(before, after, <<added[1].id>>)
-             /\ \A a \in AllIds(after) : a \in DOMAIN added[1].alternativesValues /\ added[1].alternativesValues[a] = ValOfAlt(after, a, added[1].id)
              /\ \A a \in AllIds(before) : \A c \in C : ValOfAlt(after, a, c) = ValOfAlt(before, a, c)
              (* value = mid-range + half-range x (importance-weighted mean of the mapped differences), the range  *)
              (* being the reference criterion's.  Importances come from the method's listener on the state the   *)
@@ -511,7 +514,9 @@ C19Event(o, k, b) ==
                      \cup (IF inline
                            THEN (IF Has(rep.applierResult, "appliedDifferences") /\ inlineOK THEN {} ELSE {BFail("C19", "inline-applier", "")})
                                 \cup (IF ValuesCoherent(after) /\ AllIds(after) = AllIds(before) /\ StCritIds(after) = C /\ zeroIdentity THEN {} ELSE {BFail("C19", "zero-functions-changed-data", "")})
-                           ELSE (IF Has(rep.applierResult, "addedCriteria") /\ newOK THEN {} ELSE {BFail("C19", "new-criterion-applier", "")})))
+                           ELSE (IF Has(rep.applierResult, "addedCriteria") /\ newOK THEN {} ELSE {BFail("C19", "new-criterion-applier", "")})
+                                \cup (IF Has(rep.applierResult, "addedCriteria") /\ ~newReportOK
+                                      THEN {BFail("C19", "report-differs", ""), BFail("C09", "report-differs", "")} ELSE {})))
 
 
 (* ---------------- C08: relations between runs ---------------- *)
